@@ -7,6 +7,7 @@ import (
 	"math/rand"
 	"path/filepath"
 	"reflect"
+	"regexp"
 	"sort"
 	"strings"
 
@@ -53,6 +54,118 @@ func SvclessVariant(r *Request) *Request {
 	c.Files = []*File{types, api}
 	c.Tags = append(c.Tags, "svcless-variant")
 	return c
+}
+
+// ---- nested declarations × codec feature -------------------------------------------------------------
+// For every codec feature one schema with four declaration trees:
+//   (a) TopAndNested : the feature on a top-level message AND on a message declared inside it
+//   (b) OnlyNested   : only on the nested message
+//   (c) Siblings     : on two sibling nested messages of an un-annotated parent
+//   (d) Deep         : on a nested message and on a message declared inside that one (two levels)
+// plus (in the thorough tier) one schema per tree.
+var c14Features = []string{"int64", "enum", "nullable", "empty", "timestamp", "bytes", "flatten", "oneof", "unwrap"}
+
+// c14Annotated returns a message `name` (declared at `full`, fully qualified) carrying the feature.
+func c14Annotated(feature, name, full, leaf string) *Message {
+	switch feature {
+	case "int64":
+		return M(name, F("big", 1, "int64", I64("NUMBER")), F("label", 2, "string"))
+	case "enum":
+		up := strings.ToUpper(name)
+		return M(name, F("state", 1, "", EnumT(full+".State")), F("label", 2, "string")).WithEnums(
+			&Enum{Name: "State", Values: []*EnumValue{{Name: up + "_STATE_UNSPECIFIED", Number: 0}, {Name: up + "_STATE_ON", Number: 1, EnumValue: Str("on-" + strings.ToLower(name))}}})
+	case "nullable":
+		return M(name, F("nick", 1, "string", Opt(), Nullable(true)), F("label", 2, "string"))
+	case "empty":
+		return M(name, F("meta", 1, "", Msg(leaf), Empty("NULL")), F("label", 2, "string"))
+	case "timestamp":
+		return M(name, F("at", 1, "", Msg(Timestamp), TsFmt("UNIX_MILLIS")), F("label", 2, "string"))
+	case "bytes":
+		return M(name, F("raw", 1, "bytes", BytesEnc("HEX")), F("label", 2, "string"))
+	case "flatten":
+		return M(name, F("home", 1, "", Msg(leaf), Flatten(true)), F("label", 2, "string"))
+	case "oneof":
+		return M(name, F("label", 1, "string"), F("text", 2, "", Msg(leaf), InOneof("payload")), F("note", 3, "string", InOneof("payload"))).WithOneofs(&Oneof{Name: "payload", HasConfig: true, Discriminator: "kind"})
+	case "unwrap":
+		return M(name, F("items", 1, "", Msg(leaf), Rep(), Unwrap()))
+	}
+	panic(feature)
+}
+
+func c14Plain(name string) *Message { return M(name, F("label", 1, "string"), F("n", 2, "int32")) }
+
+func c14NestedTrees(feature, pkg string) map[string]*Message {
+	leaf := pkg + ".Leaf"
+	an := func(name, full string) *Message { return c14Annotated(feature, name, full, leaf) }
+	return map[string]*Message{
+		"a": an("TopAndNested", pkg+".TopAndNested").WithNested(an("Inner", pkg+".TopAndNested.Inner")),
+		"b": c14Plain("OnlyNested").WithNested(an("Inner", pkg+".OnlyNested.Inner")),
+		"c": c14Plain("Siblings").WithNested(an("First", pkg+".Siblings.First"), c14Plain("Between"), an("Second", pkg+".Siblings.Second")),
+		"d": c14Plain("Deep").WithNested(an("Mid", pkg+".Deep.Mid").WithNested(an("Bottom", pkg+".Deep.Mid.Bottom"), c14Plain("Aside"))),
+	}
+}
+
+func c14RequestOf(id string, msgs []*Message) *Request {
+	pkg := id + ".v1"
+	f := &File{Messages: append([]*Message{M("Leaf", F("street", 1, "string"), F("zip", 2, "string"))}, msgs...)}
+	svc := &Service{Name: "Echo", BasePath: "/" + id, HasConfig: true}
+	var walk func(prefix string, ms []*Message)
+	n := 0
+	walk = func(prefix string, ms []*Message) {
+		for _, m := range ms {
+			full := prefix + "." + m.Name
+			n++
+			svc.Methods = append(svc.Methods, RPC(fmt.Sprintf("Echo%d", n), full, full, "POST", fmt.Sprintf("/echo/%d", n)))
+			walk(full, m.Nested)
+		}
+	}
+	walk(pkg, msgs)
+	f.Services = []*Service{svc}
+	r := OneFile(id, pkg, f)
+	r.Tags = []string{"nested-declarations"}
+	return r
+}
+
+// C14NestedCatalogue: nested declarations × codec feature.
+func C14NestedCatalogue(tier string) []*Request {
+	var out []*Request
+	for _, ft := range c14Features {
+		id := "ftnd" + ft
+		trees := c14NestedTrees(ft, id+".v1")
+		r := c14RequestOf(id, []*Message{trees["a"], trees["b"], trees["c"], trees["d"]})
+		r.Tags = append(r.Tags, ft)
+		out = append(out, r)
+		if tier == "thorough" {
+			for _, k := range []string{"a", "b", "c", "d"} {
+				id := "ftnd" + ft + k
+				r := c14RequestOf(id, []*Message{c14NestedTrees(ft, id+".v1")[k]})
+				r.Tags = append(r.Tags, ft, "tree-"+k)
+				out = append(out, r)
+			}
+		}
+	}
+	return out
+}
+
+var c14MarshalRe = regexp.MustCompile(`(?m)^func \(x \*?([A-Za-z0-9_]+)\) MarshalJSON\(`)
+
+// c14FileTypes lists, per emitted codec file, the receiver types of its MarshalJSON methods in order.
+func c14FileTypes(x *PluginResult) map[string]any {
+	out := map[string]any{}
+	if x.Exit != "ok" {
+		return out
+	}
+	for n, c := range x.Files {
+		if !c14IsCodecFile(n) {
+			continue
+		}
+		ts := []string{}
+		for _, m := range c14MarshalRe.FindAllStringSubmatch(c, -1) {
+			ts = append(ts, m[1])
+		}
+		out[n] = ts
+	}
+	return out
 }
 
 var c14CodecSuffixes = []string{"_unwrap.pb.go", "_encoding.pb.go", "_enum_encoding.pb.go", "_nullable.pb.go", "_empty_behavior.pb.go",
@@ -195,6 +308,7 @@ func CheckC14(run *Run) {
 			}
 		}
 	}
+	reqs = append(reqs, C14NestedCatalogue(run.Tier)...)
 	behaviour := len(reqs) // the schemas above are also built and driven
 	reqs = append(reqs, RuntimeCatalogue()...)
 	// generate_mock variants (file names only)
@@ -237,7 +351,7 @@ func CheckC14(run *Run) {
 			}
 			return append([]string{}, x.Names...)
 		}
-		obs := map[string]any{"go-http": names(h), "go-client": names(c)}
+		obs := map[string]any{"go-http": names(h), "go-client": names(c), "go-http-types": c14FileTypes(h), "go-client-types": c14FileTypes(c)}
 		holds, notes := true, []string{}
 		if h.Exit == "ok" && c.Exit == "ok" {
 			for _, n := range h.Names {
